@@ -155,6 +155,12 @@ class _Patches:
             self._set(os, n, (lambda v: (lambda: v))(self.ids))
         self._set(pwd, "getpwnam", rec("getpwnam", ("nobody", "x", self.uid, 7777, "", "/", "")))
         self._set(grp, "getgrnam", rec("getgrnam", ("nogroup", "x", self.gid, [])))
+        # the configured account is a member of further groups (as after 'usermod -aG adm,mail nobody'): whatever the code
+        # looks up about them, the process must end up without supplementary groups
+        self._set(grp, "getgrall", lambda: [("adm", "x", 4, ["nobody"]), ("mail", "x", 8, ["someone", "nobody"]),
+                                             ("nogroup", "x", self.gid, [])])
+        self._set(os, "getgrouplist", lambda user, group: [group, 4, 8])
+        self._set(os, "initgroups", rec("initgroups"))
         o_get_server = initialization.get_server
         servers = self.servers = []
         import ssl as _ssl
@@ -260,6 +266,8 @@ def _predicates(case, trace, raised, server, root):
             F("unexpected-chroot", "chroot called although usechroot is off")
         if server is not None and server.config.get("pygopherd", "root") != root:
             F("root-rewritten", "document root changed to %r without chroot" % server.config.get("pygopherd", "root"))
+    if "initgroups" in names:
+        F("groups-kept:initgroups", "initgroups() gives the process the account's supplementary groups instead of clearing them")
     if case["setuid"] or case["setgid"]:
         if "setgroups" not in pn:
             F("setgroups-missing", "supplementary groups are not cleared")
